@@ -73,6 +73,9 @@ type c07Case struct {
 	Labels []string    `json:"labels,omitempty"`
 	Fracs  [][2]uint64 `json:"fracs,omitempty"`
 	Src    string      `json:"src,omitempty"`
+	// build the ValidatorSet as a struct literal instead of NewValidatorSet (totals above
+	// MaxTotalVotingPower cannot be built otherwise)
+	HandBuilt bool `json:"handbuilt,omitempty"`
 }
 
 type c07Input struct {
@@ -110,6 +113,7 @@ type c07Run struct {
 type c07Line struct {
 	Ev    string    `json:"ev"`
 	Src   string    `json:"src"`
+	Hand  bool      `json:"handbuilt"`
 	Frame string    `json:"frame"`
 	Kinds []string  `json:"kinds"`
 	Ids   []string  `json:"ids"`
@@ -284,7 +288,7 @@ func (w *c07World) commit(c c07Commit) (*Commit, error) {
 
 // the real validator set for a power vector; checks that the production ordering put
 // v<i> at position i (anything else is a harness problem, not an observation)
-func (w *c07World) valset(pv []int64) (vs *ValidatorSet, err error) {
+func (w *c07World) valset(pv []int64, handBuilt bool) (vs *ValidatorSet, err error) {
 	defer func() {
 		if r := recover(); r != nil {
 			vs, err = nil, fmt.Errorf("NewValidatorSet panicked: %v", r)
@@ -296,6 +300,10 @@ func (w *c07World) valset(pv []int64) (vs *ValidatorSet, err error) {
 	vals := make([]*Validator, len(pv))
 	for i, p := range pv {
 		vals[i] = NewValidator(w.keys["v"+strconv.Itoa(i+1)].PubKey(), p)
+	}
+	if handBuilt {
+		// already in the production order (power descending, address ascending)
+		return &ValidatorSet{Validators: vals}, nil
 	}
 	// present them in another order than the final one: the set must sort them itself
 	for i, j := 0, len(vals)-1; i < j; i, j = i+1, j-1 {
@@ -483,7 +491,7 @@ func (w *c07World) execute(cs *c07Case, scales []string) (*c07Line, error) {
 	if kinds == nil {
 		kinds = []string{}
 	}
-	line := &c07Line{Ev: "Check", Src: src, Frame: cs.Frame, Kinds: kinds, Ids: make([]string, n), Chain: cs.Chain,
+	line := &c07Line{Ev: "Check", Src: src, Hand: cs.HandBuilt, Frame: cs.Frame, Kinds: kinds, Ids: make([]string, n), Chain: cs.Chain,
 		H: cs.H, Bid: cs.Bid, C: cs.C, Runs: []c07Run{}}
 	for i := range line.Ids {
 		line.Ids[i] = "v" + strconv.Itoa(i+1)
@@ -492,7 +500,7 @@ func (w *c07World) execute(cs *c07Case, scales []string) (*c07Line, error) {
 		if ri > 0 {
 			fracs = laterFracs
 		}
-		vs, err := w.valset(r.pv)
+		vs, err := w.valset(r.pv, cs.HandBuilt)
 		if err != nil {
 			return nil, err
 		}
@@ -661,12 +669,22 @@ func c07RandomCase(rng *rand.Rand) *c07Case {
 	}
 	for tot.Cmp(big.NewInt(MaxTotalVotingPower)) > 0 {
 		i := rng.Intn(n)
-		tot.Sub(tot, big.NewInt(pw[i]-pw[i]/2-0))
+		tot.Sub(tot, big.NewInt(pw[i]-pw[i]/2))
 		pw[i] = pw[i] / 2
 		if pw[i] == 0 {
 			pw[i] = 1
 			tot.Add(tot, big.NewInt(1))
 		}
+	}
+	// the edge of the legal range: total exactly MaxTotalVotingPower, or (hand-built set) just
+	// above it, where updateTotalVotingPower panics
+	handBuilt := false
+	switch rng.Intn(25) {
+	case 0, 1:
+		pw[rng.Intn(n)] += MaxTotalVotingPower - tot.Int64()
+	case 2:
+		pw[rng.Intn(n)] += MaxTotalVotingPower - tot.Int64() + 1 + rng.Int63n(3)
+		handBuilt = true
 	}
 	// 4. the set orders by power: sort (power, kind) pairs, position i is then v<i+1>
 	idx := make([]int, n)
@@ -714,7 +732,7 @@ func c07RandomCase(rng *rand.Rand) *c07Case {
 	if slots == nil {
 		slots, outKinds = []c07Slot{}, []string{}
 	}
-	cs := &c07Case{Frame: "random", Kinds: outKinds, Chain: chain, H: h, Bid: bid, Src: "random",
+	cs := &c07Case{Frame: "random", Kinds: outKinds, Chain: chain, H: h, Bid: bid, Src: "random", HandBuilt: handBuilt,
 		C: c07Commit{Height: h, Round: r, Bid: bid, Sigs: slots}}
 	// occasionally disagree with the commit on an argument
 	switch rng.Intn(25) {
